@@ -507,6 +507,12 @@ func Main(pkgNames []string) {
 			r.Label("unmappable-package")
 			r.LabelN("unmappable", int64(len(p.Problems)))
 			r.Sample(map[string]any{"package": name, "unmappable": p.Problems}, 2)
+			// the generated API must hold exactly one handler per declared operation, and each
+			// must report (Path() / Method()) the operation it was generated for: nothing can
+			// be dispatched "to the operation whose template matches" otherwise
+			f := res.Failure{Property: e.Check, Kind: "generated-operations-differ-from-document", Clause: "generated-operations-differ-from-document",
+				Detail: fmt.Sprintf("package %s: %s", name, strings.Join(p.Problems, "; ")), Replay: p.SpecReplay(nil)}
+			FailOrKnown(p, &e, r, f)
 		}
 		func() {
 			defer func() {
